@@ -298,7 +298,9 @@ PLAN["C08"] = dict(
                 "through ParseFLine and ParseSIPMsg; generated request lines (table / re-cased / random token methods, random "
                 "URI and version tokens) and status lines (any reason without CR/LF); 15 kinds of near-miss (double space, tab, "
                 "missing/extra token, leading/trailing space, 2/4-digit or non-digit code, missing space after the code) must "
-                "give an error verdict. Expected tokens, offsets, Status, MethodNo (reference table), Request(), Method()."),
+                "give an error verdict. Expected tokens, offsets, Status, MethodNo (reference table), Request(), Method(). A third "
+                "of the generated lines is fed in two or three calls (a first prefix of 1..40 bytes, optionally a second one "
+                "that is random or ends 2/1/0 bytes before the end of the line): the decomposition must not depend on it."),
     level_note=_MODEL_NOTE,
     rule=("case = (first-line spec, near-miss kind, following bytes, entry point); every case is non-trivial (none is a literal "
           "row of parse_fline_test); distinct by case hash / enumerated lines distinct by construction"),
